@@ -246,12 +246,35 @@ func c02Child(ctx *runCtx, spec string) {
 		// table, so that it still has the old one while the other survivors already balance: fragments sent to it are
 		// rejected. Then it catches up, the hand-over is run to completion and the second member stops.
 		atomic.StoreInt32(&w.faultBegan, 1)
+		// the member to hold back: the one that will become a NEW backup owner for most keys of the member that
+		// stops first (it is not among their backup owners now), and that is neither the coordinator nor a victim
 		var lag *cluster.Member
-		for _, m := range survivors {
-			if m != c.Coordinator() {
-				lag = m
+		firstVictim := c.Members[cs.Stop[0]]
+		best := -1
+		for _, m := range c.Members {
+			if m == c.Coordinator() || m == firstVictim {
+				continue
+			}
+			cnt := 0
+			for _, k := range w.keys {
+				if c.OwnerOf(w.dmap, k) != firstVictim {
+					continue
+				}
+				isBackup := false
+				for _, b := range c.BackupsOf(w.dmap, k) {
+					if b == m {
+						isBackup = true
+					}
+				}
+				if !isBackup {
+					cnt++
+				}
+			}
+			if cnt > best {
+				best, lag = cnt, m
 			}
 		}
+		ctx.rep.Count("lagging_target_keys_for_which_the_held_member_becomes_a_new_backup_owner", int64(best))
 		if lag == nil {
 			ctx.rep.Inconclusive(spec + ": no survivor besides the coordinator")
 			return
